@@ -441,13 +441,63 @@ def factory_rules(chk, S, r4):
         S.absorb(it)
 
 
+def signature_rules(chk, S):
+    """Sibling agreement of the public factories' signatures: the three models (and the abstract interface they implement) offer the same methods with the
+    same parameters and the same *default values*.  A default that differs in one sibling (diffuse_eps = 1e-6 in one model, 1.0 in the others) makes the
+    'same' call construct different priors -- the contradiction is visible without knowing which value is meant."""
+    import ast
+
+    r7 = chk.rule("R-C14-7", "the public factories and constraint constructors of the three models and of the abstract interface have the same parameters with the same default values", floor=4)
+
+    def sig(fn):
+        """Positional parameters by position (their names are the implementer's business), keyword-only parameters by name; each with its default."""
+        a = fn.args
+        out = []
+        pos = (a.posonlyargs + a.args)[1:]  # without self
+        dpos = [None] * (len(a.posonlyargs + a.args) - len(a.defaults)) + list(a.defaults)
+        for i_, (p_, d_) in enumerate(zip(pos, dpos[1:])):
+            out.append((f"positional #{i_}", None if d_ is None else ast.unparse(d_)))
+        for p_, d_ in zip(a.kwonlyargs, a.kw_defaults):
+            out.append((p_.arg, None if d_ is None else ast.unparse(d_)))
+        return out
+
+    classes = {fam: S.p.find_class(f"{mod}.{cls}") for fam, mod, cls in SSMS}
+    from ..harness import API
+
+    try:
+        classes["interface"] = S.p.find_class(API + ".StateSpaceModel")
+    except AnalysisError:
+        pass
+    names = sorted({n for ci in classes.values() for n in ci.methods if not n.startswith("_") and (n.startswith("prior_") or n.startswith("constraint_"))})
+    for name in names:
+        sigs = {fam: sig(ci.methods[name]) for fam, ci in classes.items() if name in ci.methods}
+        if len(sigs) < 2:
+            continue
+        ref_fam = "dense" if "dense" in sigs else sorted(sigs)[0]
+        ref = dict(sigs[ref_fam])
+        diffs = []
+        for fam, sg in sorted(sigs.items()):
+            if fam == ref_fam:
+                continue
+            d = dict(sg)
+            for k in sorted(set(d) & set(ref)):
+                if d[k] != ref[k]:
+                    diffs.append(f"{fam}: {k}={d[k]} ({ref_fam}: {k}={ref[k]})")
+            extra = sorted(set(d) ^ set(ref))
+            if extra:
+                diffs.append(f"{fam}: parameters {extra} not shared with {ref_fam}")
+        r7.require(not diffs, f"siblings {name} signature", f"{len(sigs)} siblings agree: {[k + ('=' + v if v is not None else '') for k, v in sigs[ref_fam]]}",
+                   f"{name}: " + "; ".join(diffs) + " -- the same call builds different objects in different models", f"{classes[ref_fam].module.relpath}", {"method": name})
+
+
 def run(chk, S: Session):
     _run_own(chk, S)
+    signature_rules(chk, S)
     from ..harness import borrow
 
     rb = chk.rule("R-C14-B", "clauses of this statement decided by rules of C07 (error norms the adaptive runs of all models share), C11 (observation damping of every linearisation) and C08 (every model hands the caller's solve to the reversal kernel)", floor=6)
     borrow(chk, S, rb, "C07", lambda r, c: r == "R-C07-5")
     borrow(chk, S, rb, "C11", lambda r, c: r == "R-C11-5" and "damping" in c)
-    borrow(chk, S, rb, "C08", lambda r, c: r == "R-C08-5" and "hands its solve to the kernel" in c)
+    borrow(chk, S, rb, "C08", lambda r, c: (r == "R-C08-5" and "hands its solve to the kernel" in c) or (r == "R-C08-3" and ".std" in c))
     # the three models must treat a Taylor-coefficient pytree with mixed leaf dtypes alike (promote, never cast back per leaf)
     borrow(chk, S, rb, "C20", lambda r, c: r == "R-C20-4" and "from_example" in c)
